@@ -61,6 +61,8 @@ def fmt(o):
 def replay_obj(progs, specs, grp, rs, why, pr=None):
     return {"engine": "refgroups", "progs": progs, "rel": grp["rel"],
             "reference_accepts": [sorted([sorted([k, list(v)] for k, v in m) for m in x["acc"]]) for x in pr["preds"]] if pr else None,
+            "unclaimed": [x["uncl"] for x in pr["preds"]] if pr else None,
+            "reference_accepts_greedy": [sorted([sorted([k, list(v)] for k, v in m) for m in x["accG"]]) for x in pr["preds"]] if pr else None,
             "members": [{"spec": specs[m["si"]]["str"], "prog": specs[m["si"]].get("prog", 0), "env": list(m["env"]), "argv": list(m["argv"])} for m in grp["members"]],
             "observed": [{k: r.get(k) for k in ("ran", "err", "panic", "log", "hang", "crash") if k in r} for r in rs], "why": why}
 
@@ -77,23 +79,35 @@ def rerun_replay(path, wd, law="equal", only_opts=False):
     outs = [G.outcome(r, only_opts) for r in rs]
     for m, x in zip(o["members"], outs):
         print("replay: spec=%r env=%s argv=%s -> %s" % (m["spec"], m["env"], m["argv"], fmt(x)))
-    if law == "oracle":
-        bad = False
+    oracle_bad = False
+    if o.get("reference_accepts"):
         for i, r in enumerate(rs):
             acc = set(frozenset((k, tuple(v)) for k, v in m) for m in o["reference_accepts"][i])
-            cls = refenum.classify({"acc": acc, "accG": acc, "uncl": False}, r)
-            print("replay: member %d class %s" % (i, cls))
-            bad = bad or cls.startswith("violation")
+            accg = acc
+            if o.get("reference_accepts_greedy"):
+                accg = set(frozenset((k, tuple(v)) for k, v in m) for m in o["reference_accepts_greedy"][i])
+            cls = refenum.classify({"acc": acc, "accG": accg, "uncl": False}, r)
+            print("replay: member %d against the recorded reference prediction: %s" % (i, cls))
+            if cls.startswith("violation") and not (o.get("unclaimed") or [False] * len(rs))[i]:
+                oracle_bad = True
+    if o.get("usage_expect") is not None and rs[0].get("usage") is not None and rs[0].get("err"):
+        if rs[0]["usage"].rstrip() != o["usage_expect"]:
+            print("replay: usage line %r, expected %r" % (rs[0]["usage"], o["usage_expect"]))
+            oracle_bad = True
+    if law == "oracle":
+        bad = oracle_bad
     elif law == "equal":
         bad = any(x != outs[0] for x in outs)
     else:
         a, b = outs[0], outs[1]
         bad = (a[0] is True and (b[0] is not True or a[1] != b[1])) or a[0] in ("dead", "panic") or b[0] in ("dead", "panic")
-    print("replay: law %s" % ("VIOLATED" if bad else "holds"))
+    if law != "oracle" and o.get("check_oracle"):
+        bad = bad or oracle_bad
+    print("replay: %s" % ("VIOLATED" if bad else "holds"))
     return 1 if bad else 0
 
 
-def finish_groups(rep, progs, specs, triples, nontrivial_rule):
+def finish_groups(rep, progs, specs, triples, nontrivial_rule, check_oracle=False, usage_expect=None):
     cnt = collections.Counter()
     nontriv = set()
     for grp, pr, rs, v, classes in triples:
@@ -102,7 +116,11 @@ def finish_groups(rep, progs, specs, triples, nontrivial_rule):
         if v.startswith("known:"):
             rep.known(v[6:], "%s %s" % (specs[grp["members"][0]["si"]]["str"], [m["argv"] for m in grp["members"]][:3]))
         elif v.startswith("violation"):
-            rep.violation("%s spec=%r: %s" % (grp["rel"], specs[grp["members"][0]["si"]]["str"], v[10:]), replay_obj(progs, specs, grp, rs, v, pr))
+            ro = replay_obj(progs, specs, grp, rs, v, pr)
+            ro["check_oracle"] = check_oracle
+            if usage_expect is not None:
+                ro["usage_expect"] = ("Usage: app " + usage_expect.get(grp["members"][0]["si"], "")).rstrip()
+            rep.violation("%s spec=%r: %s" % (grp["rel"], specs[grp["members"][0]["si"]]["str"], v[10:]), ro)
         if len(grp["members"]) >= 2 and any(p["acc"] for p in pr["preds"]):
             nontriv.add(key)
             if len(rep.cov["samples"]) < 5 and len(grp["members"][0]["argv"]) >= 2:
